@@ -9,7 +9,7 @@ namespace vf {
 
 const char* property_id() { return "C07"; }
 unsigned case_timeout_s() { return 300; }
-uint64_t num_cases(bool thorough) { return (thorough ? 8000 : 2000) * c07::num_types(); }   // item types round-robin
+uint64_t num_cases(bool thorough) { return (thorough ? 15000 : 2000) * c07::num_types(); }   // item types round-robin
 void final_report() {}
 
 struct ReqFam {
